@@ -84,6 +84,13 @@ Definition set_shutdown p := mkP (qsize p) (queue p) (head p) (tail p) (qempty p
 Definition set_busy b p := mkP (qsize p) (queue p) (head p) (tail p) (qempty p) b (limit p) (cap p) (shutdown p) (owner p).
 Definition set_limit l p := mkP (qsize p) (queue p) (head p) (tail p) (qempty p) (busy p) l (cap p) (shutdown p) (owner p).
 Definition set_cap_limit n p := mkP (qsize p) (queue p) (head p) (tail p) (qempty p) (busy p) n n (shutdown p) (owner p).
+Definition set_cap c p := mkP (qsize p) (queue p) (head p) (tail p) (qempty p) (busy p) (limit p) c (shutdown p) (owner p).
+
+(* POOL_resize_internal, numThreads > threadCapacity: how many of the [d] calls of pthread_create succeed.  The failure point is
+   part of the schedule (the [w] of the resize step): 0 = nothing fails; 1 = the allocation of the new thread array fails (no
+   thread is created); k+2 = the (k+1)-th pthread_create fails after k threads were created; a failure point beyond [d] never
+   strikes. *)
+Definition created (w d : nat) : nat := match w with 0 => d | S k => Nat.min (k - 1) d end.
 
 (* isQueueFull *)
 Definition is_full p : bool :=
@@ -199,7 +206,12 @@ Definition step (cfg : config) (tid w : nat) (s : state) : option state :=
         if n <=? cap p then
           (if n =? 0 then put p1 g (set_pc RBcast th) else put (set_limit n p1) g (set_pc RBcast th))
         else
-          Some (mkS (set_cap_limit n p1) g (upd tid (set_pc RBcast th) ths ++ repeat new_worker (n - cap p)))
+          let m := created w (n - cap p) in
+          if m =? n - cap p then
+            Some (mkS (set_cap_limit n p1) g (upd tid (set_pc RBcast th) ths ++ repeat new_worker (n - cap p)))
+          else
+            (* failure: threadCapacity = the threads that exist, threadLimit unchanged; POOL_resize still broadcasts, returns 1 *)
+            Some (mkS (set_cap (cap p + m) p1) g (upd tid (set_pc RBcast th) ths ++ repeat new_worker m))
       else None
     | RBcast => put' p g (broadcast wake_pop ths) (set_pc RUnlock th)
     | RUnlock => let '(th', g') := finish_op cfg tid th g in put (set_owner None p) g' th'
